@@ -130,6 +130,7 @@ func (fr *Frame) callSiteObligations(b *ssa.BasicBlock, c *ssa.CallCommon, st *S
 		for _, p := range fr.fn.Params {
 			args = append(args, fr.get(p))
 		}
+		args = append(args, vc.rootLogicals...)
 		args = append(args, vc.rootOlds...)
 		declared := cs.Args
 		if len(declared) > 0 && declared[0][0] == "recv" {
@@ -258,6 +259,18 @@ func (fr *Frame) callFunc(b *ssa.BasicBlock, f *ssa.Function, c *ssa.CallCommon,
 			return v
 		}
 	}
+	if strings.HasPrefix(name, "verif_uf_val[") {
+		// an uninterpreted function of an object reference with values of type T
+		k, ok := c.Args[0].(*ssa.Const)
+		if !ok || k.Value == nil {
+			panic(unsupported(name + ": the name must be a string constant"))
+		}
+		rt := f.Signature.Results().At(0).Type()
+		srt := vc.sorts().sortOf(rt)
+		fn := "g_uf_" + vc.sorts().shortName(constant.StringVal(k.Value)) + "_" + vc.sorts().shortName("ufsort:"+srt)
+		eng.needDecl(fmt.Sprintf("(declare-fun %s ((_ BitVec 64)) %s)", fn, srt))
+		return &Val{T: rt, S: app(fn, app("g_iref", args[1].S))}
+	}
 	if f.Pkg != nil && (name == "verif_uf_str" || name == "verif_uf_u64") {
 		// an uninterpreted function of an object reference, named by a constant
 		k, ok := c.Args[0].(*ssa.Const)
@@ -271,6 +284,10 @@ func (fr *Frame) callFunc(b *ssa.BasicBlock, f *ssa.Function, c *ssa.CallCommon,
 		fn := "g_uf_" + vc.sorts().shortName(constant.StringVal(k.Value)) + "_" + name[9:]
 		eng.needDecl(fmt.Sprintf("(declare-fun %s ((_ BitVec 64)) %s)", fn, res))
 		return &Val{T: rt, S: app(fn, app("g_iref", args[1].S))}
+	}
+	if strings.HasPrefix(name, "verif_arrayof[") {
+		// the backing array of a slice as an object (for modifies clauses)
+		return &Val{T: f.Signature.Results().At(0).Type(), S: fmt.Sprintf("(g_mkiface (_ bv1 32) (g_sarr %s))", args[0].S)}
 	}
 	if strings.HasPrefix(name, "verif_sameelems[") {
 		// the two slices hold the same sequence of elements
@@ -298,6 +315,9 @@ func (fr *Frame) callFunc(b *ssa.BasicBlock, f *ssa.Function, c *ssa.CallCommon,
 		if n0 == "" {
 			n0 = "g_next0"
 		}
+		if vc.freshBase != "" {
+			n0 = vc.freshBase
+		}
 		sl := args[0].S
 		now := st.next
 		if vc.clauseNext != "" {
@@ -310,6 +330,9 @@ func (fr *Frame) callFunc(b *ssa.BasicBlock, f *ssa.Function, c *ssa.CallCommon,
 		n0 := vc.frame.next0
 		if n0 == "" {
 			n0 = "g_next0"
+		}
+		if vc.freshBase != "" {
+			n0 = vc.freshBase
 		}
 		ref := app("g_iref", args[0].S)
 		// allocated after entry and before now
@@ -496,10 +519,44 @@ func (fr *Frame) applyContract(b *ssa.BasicBlock, ct *Contract, c *ssa.CallCommo
 			vc.assume(o.Goal)
 		}
 	}
-	var olds []Val
-	for _, o := range ct.Olds {
-		olds = append(olds, vc.evalClauseVal(o.Clause, args, st, fr))
+	callNext := st.next
+	// logical variables of the callee's contract: its postconditions are assumed
+	// for all their values (bound variables of one quantifier around each clause)
+	var lgVals []Val
+	var lgBind []string
+	if len(ct.Logicals) > 0 {
+		for _, lg := range ct.Logicals {
+			t := vc.eng.logicalType(ct, lg)
+			vc.qn++
+			n := fmt.Sprintf("g_lg%d", vc.qn)
+			lgVals = append(lgVals, Val{T: t, S: n})
+			lgBind = append(lgBind, "("+n+" "+vc.sorts().sortOf(t)+")")
+		}
 	}
+	underLogicals := func(f func()) {
+		if len(lgVals) == 0 {
+			f()
+			return
+		}
+		saved := vc.qvars
+		for _, v := range lgVals {
+			vc.qvars = append(vc.qvars, [2]string{v.S, vc.sorts().sortOf(v.T)})
+		}
+		savedCur := vc.qcur
+		vc.qcur = ""
+		vc.quant++
+		f()
+		vc.quant--
+		vc.qcur = savedCur
+		vc.qvars = saved
+	}
+	argsL := append(append([]Val{}, args...), lgVals...)
+	var olds []Val
+	underLogicals(func() {
+		for _, o := range ct.Olds {
+			olds = append(olds, vc.evalClauseVal(o.Clause, argsL, st, fr))
+		}
+	})
 	// frame
 	if len(ct.Preserves) > 0 || len(ct.PreserveTypes) > 0 {
 		var protect []string
@@ -549,6 +606,19 @@ func (fr *Frame) applyContract(b *ssa.BasicBlock, ct *Contract, c *ssa.CallCommo
 		limit := st.next
 		if m.all && len(m.keep) > 0 {
 			vc.havocMods(st, m)
+		} else if m.all && framed {
+			// unbounded static effects, but a declared frame: every heap array known so
+			// far may have changed, except at pre-existing objects outside the frame
+			vc.bumpNext(st)
+			for _, k := range sortedKeys(vc.heapSort) {
+				if strings.HasPrefix(k, "G|") || strings.HasPrefix(k, "Gh|") {
+					if !(ct.NoConn && strings.HasPrefix(k, "Gh|")) {
+						vc.havocHeap(st, k, "", nil)
+					}
+					continue
+				}
+				vc.havocHeap(st, k, limit, exempt)
+			}
 		} else if m.all {
 			saved := map[string]string{}
 			if ct.NoConn {
@@ -576,9 +646,17 @@ func (fr *Frame) applyContract(b *ssa.BasicBlock, ct *Contract, c *ssa.CallCommo
 		vc.bumpNext(st) // may allocate
 	}
 	res := fr.freshResults(c, st, "res_"+fname)
-	post := append(append(append([]Val{}, args...), res...), olds...)
+	post := append(append(append([]Val{}, argsL...), res...), olds...)
+	// "fresh" in the callee's postconditions: allocated during this call
+	savedBase := vc.freshBase
+	vc.freshBase = callNext
+	defer func() { vc.freshBase = savedBase }()
 	for _, cl := range ct.Ensures {
-		g := vc.evalClause(cl, post, st, fr)
+		var g string
+		underLogicals(func() { g = vc.evalClause(cl, post, st, fr) })
+		if len(lgVals) > 0 && usesAny(g, lgVals) {
+			g = fmt.Sprintf("(forall (%s) %s)", strings.Join(lgBind, " "), g)
+		}
 		vc.assume(sImp(reach, g))
 	}
 	return packResults(c, res)
@@ -784,8 +862,10 @@ func (fr *Frame) quantifierAll(c *ssa.CallCommon, args []Val, st *State, reach s
 		panic(unsupported("quantifier body is not a function literal"))
 	}
 	pt := ci.fn.Signature.Params().At(0).Type()
-	if _, ok := pt.Underlying().(*types.Basic); !ok {
-		panic(unsupported("verif_all over a non-basic type"))
+	switch pt.Underlying().(type) {
+	case *types.Basic, *types.Interface, *types.Pointer, *types.Array:
+	default:
+		panic(unsupported("verif_all over type " + pt.String()))
 	}
 	vc.qn++
 	q := fmt.Sprintf("g_q%d", vc.qn)
@@ -810,15 +890,18 @@ func (fr *Frame) quantifier(forall bool, c *ssa.CallCommon, args []Val, st *Stat
 	vc.qn++
 	q := fmt.Sprintf("g_q%d", vc.qn)
 	bv64 := "(_ BitVec 64)"
-	savedCur, savedOff, savedRepl := vc.qcur, vc.qoff, vc.qrepl
+	savedCur, savedRepl := vc.qcur, vc.qrepl
 	vc.quant++
 	vc.qvars = append(vc.qvars, [2]string{q, bv64})
-	vc.qcur, vc.qoff = q, ""
+	if vc.qoffs == nil {
+		vc.qoffs = map[string]string{}
+	}
+	vc.qcands = append(vc.qcands, q)
 	res, _, _ := vc.execClosure(ci, []Val{{T: types.Typ[types.Int], S: q}}, st.clone(), "true", fr)
-	off := vc.qoff
+	off := vc.qoffs[q]
+	vc.qcands = vc.qcands[:len(vc.qcands)-1]
 	vc.qvars = vc.qvars[:len(vc.qvars)-1]
 	vc.quant--
-	vc.qcur, vc.qoff = savedCur, savedOff
 	body := res[0].S
 	idx := q // the term the range speaks about
 	// Re-base the bound variable on the absolute position in the first slice the
@@ -845,12 +928,214 @@ func (fr *Frame) quantifier(forall bool, c *ssa.CallCommon, args []Val, st *Stat
 	}
 	rng := fmt.Sprintf("(and (bvsle %s %s) (bvslt %s %s))", args[0].S, idx, idx, args[1].S)
 	var t string
+	// trigger: the element read at the bound position, when the body has one
+	pat := ""
+	if !noPatterns {
+		if p := vc.selectPattern(body, q); p != "" {
+			pat = " :pattern (" + p + ")"
+		}
+	}
 	if forall {
-		t = fmt.Sprintf("(forall ((%s (_ BitVec 64))) (=> %s %s))", q, rng, body)
+		if pat != "" {
+			t = fmt.Sprintf("(forall ((%s (_ BitVec 64))) (! (=> %s %s)%s))", q, rng, body, pat)
+		} else {
+			t = fmt.Sprintf("(forall ((%s (_ BitVec 64))) (=> %s %s))", q, rng, body)
+		}
 	} else {
-		t = fmt.Sprintf("(exists ((%s (_ BitVec 64))) (and %s %s))", q, rng, body)
+		if pat != "" {
+			t = fmt.Sprintf("(exists ((%s (_ BitVec 64))) (! (and %s %s)%s))", q, rng, body, pat)
+		} else {
+			t = fmt.Sprintf("(exists ((%s (_ BitVec 64))) (and %s %s))", q, rng, body)
+		}
 	}
 	return &Val{T: types.Typ[types.Bool], S: vc.def("Bool", "quant", t)}
+}
+
+var noPatterns = os.Getenv("GOVC_NOPATTERNS") != ""
+
+// selectPattern looks, in body with the definitions it uses expanded, for a term
+// (select A q) whose index is exactly the bound variable q and whose array A
+// does not mention q, and returns it (written with in-scope symbols only).
+func (vc *VC) selectPattern(body, q string) string {
+	if vc.defBodies == nil {
+		vc.defBodies = map[string][2]string{}
+	}
+	// index the parameterised definitions emitted so far
+	for ; vc.defScanned < len(vc.lines); vc.defScanned++ {
+		l := vc.lines[vc.defScanned]
+		if !strings.HasPrefix(l, "(define-fun ") {
+			continue
+		}
+		rest := l[len("(define-fun "):]
+		sp := strings.IndexByte(rest, ' ')
+		if sp < 0 {
+			continue
+		}
+		name := rest[:sp]
+		rest = rest[sp+1:]
+		if !strings.HasPrefix(rest, "(") {
+			continue
+		}
+		pe := matchClose(rest, 0)
+		if pe < 0 {
+			continue
+		}
+		params := rest[:pe+1]
+		// skip the result sort
+		r2 := strings.TrimSpace(rest[pe+1:])
+		var bodyStart int
+		if strings.HasPrefix(r2, "(") {
+			se := matchClose(r2, 0)
+			if se < 0 {
+				continue
+			}
+			bodyStart = se + 1
+		} else {
+			bodyStart = strings.IndexByte(r2, ' ')
+			if bodyStart < 0 {
+				continue
+			}
+		}
+		b := strings.TrimSpace(r2[bodyStart:])
+		b = strings.TrimSuffix(b, ")")
+		vc.defBodies[name] = [2]string{params, b}
+	}
+	var find func(t string, depth int) string
+	find = func(t string, depth int) string {
+		// direct occurrence
+		needle := " " + q + ")"
+		for from := 0; ; {
+			i := strings.Index(t[from:], needle)
+			if i < 0 {
+				break
+			}
+			i += from
+			end := i + len(needle)
+			// walk back to the opening parenthesis of this application
+			depthP := 0
+			start := -1
+			for k := end - 1; k >= 0; k-- {
+				if t[k] == ')' {
+					depthP++
+				} else if t[k] == '(' {
+					depthP--
+					if depthP == 0 {
+						start = k
+						break
+					}
+				}
+			}
+			if start >= 0 && strings.HasPrefix(t[start:], "(select ") {
+				arr := strings.TrimSpace(t[start+len("(select ") : i])
+				if !mentions(arr, q) && !strings.Contains(arr, "(ite ") {
+					return t[start:end]
+				}
+			}
+			from = i + 1
+		}
+		if depth >= 4 {
+			return ""
+		}
+		// expand applications of definitions that receive q
+		for from := 0; from < len(t); {
+			i := strings.Index(t[from:], "(g_")
+			if i < 0 {
+				break
+			}
+			i += from
+			e := matchClose(t, i)
+			if e < 0 {
+				break
+			}
+			appl := t[i : e+1]
+			from = i + 1
+			sp := strings.IndexByte(appl, ' ')
+			if sp < 0 {
+				continue
+			}
+			name := appl[1:sp]
+			d, ok := vc.defBodies[name]
+			if !ok || !mentions(appl, q) {
+				continue
+			}
+			// bind parameters to arguments
+			var pnames []string
+			for _, pd := range splitSexps(d[0][1 : len(d[0])-1]) {
+				f := strings.Fields(strings.TrimPrefix(pd, "("))
+				if len(f) > 0 {
+					pnames = append(pnames, f[0])
+				}
+			}
+			args := splitSexps(appl[sp+1 : len(appl)-1])
+			if len(args) != len(pnames) {
+				continue
+			}
+			ex := d[1]
+			for k := range pnames {
+				ex = replaceToken(ex, pnames[k], "\x00"+fmt.Sprint(k)+"\x00")
+			}
+			for k := range pnames {
+				ex = strings.ReplaceAll(ex, "\x00"+fmt.Sprint(k)+"\x00", args[k])
+			}
+			if r := find(ex, depth+1); r != "" {
+				return r
+			}
+		}
+		return ""
+	}
+	return find(body, 0)
+}
+
+// splitSexps splits a sequence of s-expressions / atoms at the top level.
+func splitSexps(s string) []string {
+	var res []string
+	for i := 0; i < len(s); {
+		for i < len(s) && s[i] == ' ' {
+			i++
+		}
+		if i >= len(s) {
+			break
+		}
+		if s[i] == '(' {
+			e := matchClose(s, i)
+			if e < 0 {
+				res = append(res, s[i:])
+				break
+			}
+			res = append(res, s[i:e+1])
+			i = e + 1
+			continue
+		}
+		j := i
+		for j < len(s) && s[j] != ' ' {
+			j++
+		}
+		res = append(res, s[i:j])
+		i = j
+	}
+	return res
+}
+
+// replaceToken replaces whole-token occurrences of name in s.
+func replaceToken(s, name, by string) string {
+	var b strings.Builder
+	for from := 0; ; {
+		i := strings.Index(s[from:], name)
+		if i < 0 {
+			b.WriteString(s[from:])
+			break
+		}
+		i += from
+		end := i + len(name)
+		if (i == 0 || !isIdentChar(s[i-1])) && (end == len(s) || !isIdentChar(s[end])) {
+			b.WriteString(s[from:i])
+			b.WriteString(by)
+		} else {
+			b.WriteString(s[from:end])
+		}
+		from = end
+	}
+	return b.String()
 }
 
 // sliceOffsetOf finds the first term (bvadd (g_soff X) q) in body and returns
@@ -1104,6 +1389,15 @@ func (vc *VC) specHasQuant(term string) bool {
 	}
 	for _, sname := range symRe.FindAllString(term, -1) {
 		if vc.quantDefs[sname] {
+			return true
+		}
+	}
+	return false
+}
+
+func usesAny(term string, vs []Val) bool {
+	for _, v := range vs {
+		if mentions(term, v.S) {
 			return true
 		}
 	}
